@@ -270,7 +270,38 @@ def agrees (exp : Outcome) (obs : Observed) : Bool :=
   (exp.exitZero == (obs.exitCode == 0)) &&
   exp.stdout == obs.stdout &&
   exp.file == obs.file &&
-  (if exp.stderr.contains .osError then obs.stderr.startsWith "Error: " else stderrText exp == obs.stderr)
+  -- an operating-system error is the last thing on stderr, rendered by Rust as `Error: …`
+  (if exp.stderr.contains .osError then obs.stderr.startsWith (stderrText exp ++ "Error: ") else stderrText exp == obs.stderr)
+
+/-! ### a sink that cannot take the CSS (full device, closed pipe)
+
+  main.rs:248-269: the CSS is handed to the sink with ONE `write_all(..)?` and `main` returns
+  `Ok(())` without flushing.  A `File` is unbuffered, so a failing write is seen by `?`.
+  `Stdout` is a `LineWriter` (buffer 1024 bytes): everything up to the last `\n` is written at
+  once, a longer-than-buffer remainder too, but a short remainder with no newline stays in the
+  buffer and is written when the process exits — where the error has nowhere to go. -/
+
+/-- Non-empty CSS without any newline and shorter than stdout's buffer: stays buffered. -/
+def unterminatedSmall (css : String) : Bool :=
+  css != "" && !css.toList.contains '\n' && css.utf8ByteSize < 1024
+
+/-- `flushChecked = false`: the code as it stands.  `true`: `main` flushes the sink and
+    propagates the error (`buf_out.flush()?`).  `sinkFails`: every write to the sink fails. -/
+def outcomeIO (flushChecked : Bool) (f : Flags) (i : InputKind) (o : OutputKind) (lib : LibResult)
+    (sinkFails : Bool) : Outcome :=
+  if !sinkFails then outcome f i o lib else
+  match o, lib with
+  | .fileUnopenable, _ => outcome f i o lib
+  -- nothing is written on a library error: as without a failing sink, but the device keeps nothing
+  | _, .err r w => { exitZero := false, stdout := "", stderr := [.text w, .text (r ++ "\n")], file := none }
+  | .file, .ok css w =>
+    if css == "" then { exitZero := true, stdout := "", stderr := [.text w], file := none }
+    else { exitZero := false, stdout := "", stderr := [.text w, .osError], file := none }
+  | .stdout, .ok css w =>
+    if css == "" || (!flushChecked && unterminatedSmall css) then
+      -- as found: the write error surfaces only after `main` has returned `Ok(())`
+      { exitZero := true, stdout := "", stderr := [.text w], file := none }
+    else { exitZero := false, stdout := "", stderr := [.text w, .osError], file := none }
 
 /-! ### driver entry points -/
 open Grass.Proto
@@ -300,6 +331,23 @@ def segStr : Seg → String
   | .text t => "t:" ++ hexEncode t
   | .osError => "os"
 
+def handleOutcome (ok kind body warn fc sf : String) : String :=
+  match outputKindOfStr ok, hexDecode body, hexDecode warn, parseBool? fc, parseBool? sf with
+  | some ok, some body, some warn, some fc, some sf =>
+    if kind != "ok" && kind != "err" then "bad-op" else
+    let lib := if kind == "ok" then LibResult.ok body warn else LibResult.err body warn
+    let r := outcomeIO fc {} .file ok lib sf
+    s!"ok exit0={boolStr r.exitZero} stdout={hexEncode r.stdout} stderr={",".intercalate (r.stderr.map segStr)} file={optStr r.file}"
+  | _, _, _, _, _ => "bad-op"
+
+def handleAgrees (ok kind body warn code so se fl fc sf : String) : String :=
+  match outputKindOfStr ok, hexDecode body, hexDecode warn, code.toNat?, hexDecode so, hexDecode se, optOfStr fl, parseBool? fc, parseBool? sf with
+  | some ok, some body, some warn, some code, some so, some se, some fl, some fc, some sf =>
+    if kind != "ok" && kind != "err" then "bad-op" else
+    let lib := if kind == "ok" then LibResult.ok body warn else LibResult.err body warn
+    "ok " ++ boolStr (agrees (outcomeIO fc {} .file ok lib sf) ⟨code, so, se, fl⟩)
+  | _, _, _, _, _, _, _, _, _ => "bad-op"
+
 def handle : List String → String
   -- parse <argv>: flags, the Options derived from them, input and output positionals
   | ["parse", argv] =>
@@ -322,22 +370,13 @@ def handle : List String → String
       "ok " ++ tokOfList (renderArgv { stdin := si, style := st, loadPaths := lps, noCharset := nc, quiet := q, noUnicode := nu } pos)
     | _, _, _, _, _, _, _ => "bad-op"
   -- outcome <stdout|file|unopenable> <ok|err> <css-or-rendered> <warnings>: expected exit class, stdout, stderr segments, file
-  | ["outcome", ok, kind, body, warn] =>
-    match outputKindOfStr ok, hexDecode body, hexDecode warn with
-    | some ok, some body, some warn =>
-      if kind != "ok" && kind != "err" then "bad-op" else
-      let lib := if kind == "ok" then LibResult.ok body warn else LibResult.err body warn
-      let r := outcome {} .file ok lib
-      s!"ok exit0={boolStr r.exitZero} stdout={hexEncode r.stdout} stderr={",".intercalate (r.stderr.map segStr)} file={optStr r.file}"
-    | _, _, _ => "bad-op"
+  | ["outcome", ok, kind, body, warn] => handleOutcome ok kind body warn "0" "0"
+  -- outcome … <flushChecked> <sinkFails>: the same with a sink whose writes fail
+  | ["outcome", ok, kind, body, warn, fc, sf] => handleOutcome ok kind body warn fc sf
   -- agrees <stdout|file|unopenable> <ok|err> <body> <warnings> <exit code> <stdout> <stderr> <file>: P̂ on an observed run
-  | ["agrees", ok, kind, body, warn, code, so, se, fl] =>
-    match outputKindOfStr ok, hexDecode body, hexDecode warn, code.toNat?, hexDecode so, hexDecode se, optOfStr fl with
-    | some ok, some body, some warn, some code, some so, some se, some fl =>
-      if kind != "ok" && kind != "err" then "bad-op" else
-      let lib := if kind == "ok" then LibResult.ok body warn else LibResult.err body warn
-      "ok " ++ boolStr (agrees (outcome {} .file ok lib) ⟨code, so, se, fl⟩)
-    | _, _, _, _, _, _, _ => "bad-op"
+  | ["agrees", ok, kind, body, warn, code, so, se, fl] => handleAgrees ok kind body warn code so se fl "0" "0"
+  -- agrees … <flushChecked> <sinkFails>
+  | ["agrees", ok, kind, body, warn, code, so, se, fl, fc, sf] => handleAgrees ok kind body warn code so se fl fc sf
   | _ => "bad-op"
 
 end Grass.Cli
